@@ -127,11 +127,13 @@ def gen_cases(tier):
         add("sha256", "int", [str(n)], ("data", R.sha256(e)))
         # int o hex: the number's own encoding, fed back as data
         if e:
-            add("int", "data-minimal" if len(e) <= 4 else "data-over-4-bytes", [hx(e)], ("int", n))
+            # data of more than 4 bytes is outside the script-number range (C18: four bytes, five only for lock-time operands):
+            # a rejection is a tool limit (observation); a crash is still a crash
+            add("int", "data-minimal" if len(e) <= 4 else "data-over-4-bytes", [hx(e)], ("int", n) if len(e) <= 4 else ("limit", "script numbers are limited to 4 bytes"))
     for h in ("", "00", "80", "0100", "0180", "ff7f", "ff80", "ffff", "7f", "ff", "000080", "ffffff7f", "ffffffff", "00000080", "00000000",
               "0000008000", "ffffffff7f", "ffffffffff", "ffffffffffffff7f", "ffffffffffffffff"):
         b = bytes.fromhex(h)
-        add("int", "data-nonminimal-or-boundary" if len(b) <= 4 else "data-over-4-bytes", [hx(b)], ("int", R.scriptnum_decode(b)))
+        add("int", "data-nonminimal-or-boundary" if len(b) <= 4 else "data-over-4-bytes", [hx(b)], ("int", R.scriptnum_decode(b)) if len(b) <= 4 else ("limit", "script numbers are limited to 4 bytes"))
     # ---- codec corruption: every single-character substitution
     nstr = 4 if thorough else 2
     payloads = [bytes([0x00]) + R.hash160(b"key%d" % i) for i in range(nstr)]
